@@ -118,8 +118,9 @@ def free_udp_port(family=socket.AF_INET):
 
 class Server:
     def __init__(self, binary, directory, *, single=False, read_only=False, overwrite=False, keep=False, send_dir=None, recv_dir=None,
-                 dup=None, ip="127.0.0.1", logdir=None, strace=None, extra=(), tag="srv", shuffle=None, d_last=False, cwd=None):
+                 dup=None, ip="127.0.0.1", logdir=None, strace=None, extra=(), tag="srv", shuffle=None, d_last=False, cwd=None, fsize_limit=None):
         self.binary, self.ip = binary, ip
+        self.fsize_limit = fsize_limit
         self.family = socket.AF_INET6 if ":" in ip else socket.AF_INET
         self.args = ["-i", ip, "-d", directory]
         if send_dir:
@@ -178,8 +179,20 @@ class Server:
                 cmd = ["strace", "-f", "-qq", "-o", self.strace, "-e",
                        "trace=open,openat,creat,unlink,unlinkat,rename,renameat,renameat2,mkdir,mkdirat,truncate,ftruncate,link,linkat,symlink,symlinkat,rmdir"] + cmd
             self.logf = open(self.log_path, "wb")
+            pre = None
+            out = self.logf
+            if self.fsize_limit is not None:
+                # storage fault: no file may grow beyond the limit; a write crossing it is short, the next one fails with
+                # EFBIG (SIGXFSZ ignored, which is inherited across exec). The log goes to /dev/null, it is a file too.
+                lim = self.fsize_limit
+
+                def pre():
+                    import resource
+                    signal.signal(signal.SIGXFSZ, signal.SIG_IGN)
+                    resource.setrlimit(resource.RLIMIT_FSIZE, (lim, lim))
+                out = subprocess.DEVNULL
             # own process group: under strace the server is a grandchild, stop() must take it down too
-            self.proc = subprocess.Popen(cmd, stdout=self.logf, stderr=subprocess.STDOUT, cwd=self.cwd or self.logdir, start_new_session=True)
+            self.proc = subprocess.Popen(cmd, stdout=out, stderr=subprocess.STDOUT, cwd=self.cwd or self.logdir, start_new_session=True, preexec_fn=pre)
             if not wait:
                 return self
             if self.wait_ready():
@@ -379,7 +392,7 @@ def download(server_addr, name, options=(), *, family=socket.AF_INET, timeout=2.
             s.close()
 
 
-def upload(server_addr, name, data, options=(), *, family=socket.AF_INET, timeout=2.0, sock=None, drop_first_send=(), dup_blocks=(), mode=b"octet", stop_after=None):
+def upload(server_addr, name, data, options=(), *, family=socket.AF_INET, timeout=2.0, sock=None, drop_first_send=(), dup_blocks=(), mode=b"octet", stop_after=None, on_ack=None):
     """uploads `data`; drop_first_send: absolute block indices whose first transmission is withheld;
     stop_after: stop silently after that many blocks were acknowledged."""
     tr = Transfer()
@@ -440,6 +453,8 @@ def upload(server_addr, name, data, options=(), *, family=socket.AF_INET, timeou
                     return tr
                 if kind == "ACK":
                     tr.acks.append((f["blk"], src[1], time.time()))
+                    if on_ack is not None:
+                        on_ack(f["blk"], base, b)
                     d = (f["blk"] - base) & 0xFFFF
                     if d < (last - base + 1):
                         base = base + d + 1
